@@ -1001,6 +1001,15 @@ def run_c09(ctx):
     dp += [{"recipe": cat0[k], "src": "handmade"} for k in ("M1", "M2", "M3", "G1") if k in cat0]
     ctx.pmap(drivers.drv_derive_poke, _stamp(dp, "drv_derive_poke"))
     ctx.region("result_poked_source_checked")
+    # module / class level state: the same constructor calls before and after unrelated use of the library, in a pristine process
+    a_, b_, c_ = LEAF("a"), LEAF("b"), LEAF("c")
+    probes = [dict(_cc("ccAny", a_, b_, c_, id="X"), d="a"), dict(_cc("ccXor", a_, b_, c_), d="b"), _R("Any", a_, _R("All", b_, c_, id="K"), id="A"),
+              _R("Imply", _R("Any", a_, b_), c_), _R("Xor", a_, b_, c_, id="Z"), _R("AtLeast", a_, LEAF("t", -2, 3), v=2, s=1)]
+    noise = [cat0[k] for k in ("CfgD", "CfgP", "Cfg3", "Cfg4", "CfgG", "M1", "M3")] + cicje_recipes()[:12]
+    det = [{"probes": probes, "noise": noise[i:] + noise[:i]} for i in range(0, len(noise), 4)]
+    for ev_ in ctx.pmap_fresh(drivers.drv_determinism, det, batch=1):
+        for e in ev_: ctx.add_event(e, {"driver": "drv_determinism"})
+    ctx.region("module_level_state_probe")
     cat = api_catalog()
     pairs = [(cat["M1"], cat["CfgD"]), (cat["CfgD"], cat["CfgP"]), (cat["Cfg3"], cat["Cfg4"]), (cat["G1"], cat["M2"]), (cat["M3"], cat["M3"]), (cat["M4"], cat["M1"])]
     if not q: pairs += [(cat["CfgP"], cat["CfgD"]), (cat["Cfg4"], cat["Cfg3"]), (cat["CfgG"], cat["M1"]), (cat["M1"], cat["M1"])]
